@@ -123,7 +123,7 @@ func (f *bepFam) probe(out *emitter, rng *rand.Rand, id krpc.ID, ip []byte, near
 		return
 	}
 	out.call(M{"e": "Verify", "id": idj(flip(s, rng.Intn(21))), "ip": ints(ip)}) // one of the 21 bits wrong
-	out.call(M{"e": "Verify", "id": idj(flip(s, 21)), "ip": ints(ip)})          // bit 22 must not matter
+	out.call(M{"e": "Verify", "id": idj(flip(s, 21)), "ip": ints(ip)})           // bit 22 must not matter
 	t := s
 	t[19] = t[19]&^7 | (t[19]+1+byte(rng.Intn(7)))&7 // another r: the prefix no longer fits
 	out.call(M{"e": "Verify", "id": idj(t), "ip": ints(ip)})
